@@ -93,11 +93,10 @@ theorem C01_stat_posix (s : Store) (root : Ino) (v : View) (hwf : WF s root) (hn
 
 /-! ### more calls against the POSIX-style reference (Lemmas/Posix2.lean): open, link, truncate, chmod, chown, rename -/
 
-/-- OpenFile = open(2) for every flag value: the reference's error; or a new regular file under the last component's name in the resolved parent (caller's identity, perm &^ umask) and a handle on it; or a handle on the existing node (truncated first when O_TRUNC is given) — outside the corner `openExclDenied` (O_CREAT|O_EXCL on an existing file the caller may not open: MemFS answers EACCES where open(2) answers EEXIST, witness `open_excl_denied`) -/
+/-- OpenFile = open(2) for every flag value: the reference's error; or a new regular file under the last component's name in the resolved parent (caller's identity, perm &^ umask) and a handle on it; or a handle on the existing node (truncated first when O_TRUNC is given); O_CREAT|O_EXCL on an existing entry is EEXIST whatever its permission bits (witness `open_excl_exists`) -/
 theorem C01_open_posix (s : Store) (root : Ino) (v : View) (hwf : WF s root) (hn : NamesOK s) (hv : ViewOK s v)
     (hroot : v.root = root) (cs : List Bytes) (hne : cs ≠ []) (hall : ∀ c ∈ cs, c ≠ [] ∧ ∀ x ∈ c, x ≠ SL)
-    (hdots : ∀ c ∈ cs, c ≠ [DOT] ∧ c ≠ [DOT, DOT]) (vid flag perm : Nat)
-    (hcorner : openExclDenied s v (toOpenMode flag) (walkPath s v root cs) = false) :
+    (hdots : ∀ c ∈ cs, c ≠ [DOT] ∧ c ≠ [DOT, DOT]) (vid flag perm : Nat) :
     match posixOpen s v (toOpenMode flag) (walkPath s v root cs) with
     | .fail e => openFile s v vid (SL :: joinWith SL cs) flag perm = (s, .error e)
     | .create par name => name = cs.getLast hne ∧
@@ -107,7 +106,7 @@ theorem C01_open_posix (s : Store) (root : Ino) (v : View) (hwf : WF s root) (hn
     | .opened c tr => openFile s v vid (SL :: joinWith SL cs) flag perm =
         (if tr then truncated s c else s, .ok (handleOn c (SL :: joinWith SL cs) (toOpenMode flag) vid))
     | .outside => True :=
-  open_posix s root v hwf hn hv hroot cs hne hall hdots vid flag perm hcorner
+  open_posix s root v hwf hn hv hroot cs hne hall hdots vid flag perm
 
 /-- Link = link(2): the reference's error, or one more entry for the same node in the resolved parent of the new name, link count + 1 -/
 theorem C01_link_posix (s : Store) (root : Ino) (v : View) (hwf : WF s root) (hn : NamesOK s) (hv : ViewOK s v)
